@@ -22,7 +22,7 @@ func equalArms(c *Ctx, rule string, totality bool) {
 	}
 	c.Analysed(fnName(eq))
 	c.Rule(rule, "for every arm X of value.Equal's switch on a's oneof: b's oneof is obtained through the nil-safe getter and comma-ok asserted to the same X; a mismatch returns false; true is returned only through == comparisons of the same fields of both sides (leaf-lists: different lengths => false on every path, equal lengths => element-wise recursive Equal on the same index, a false element => false); values of unhandled kinds => false")
-	a, b := ssa.Value(eq.Params[0]), ssa.Value(eq.Params[1])
+	a, b := ssa.Value(param(eq, 0)), ssa.Value(param(eq, 1))
 	getVal := "(*proto/gnmi.TypedValue).GetValue"
 	sideOf := func(v ssa.Value) string {
 		switch x := v.(type) {
